@@ -199,3 +199,27 @@ def leave_shutting(server):
   t = server._thread
   if t is not None:
     t.join(timeout=5)
+
+
+def gen_none():
+  yield 10
+  yield 11
+
+
+def gen_ret():
+  yield 10
+  yield 11
+  return 'R'
+
+
+def make_iter(shape):
+  """iterables whose exhaustion carries 0 or 1 return values"""
+  if shape == 'list':
+    return iter([10, 11, 12])
+  if shape == 'empty':
+    return iter([])
+  if shape == 'gen_none':
+    return gen_none()
+  if shape == 'gen_ret':
+    return gen_ret()
+  raise ValueError(shape)
